@@ -427,3 +427,68 @@ Section GroupAgreement.
     exists s, i, key, recips, ct. repeat split; assumption.
   Qed.
 End GroupAgreement.
+
+(* ---- commits WITHOUT an update path (add-only, PSK-only ...): the proposals alone ---- *)
+Lemma ancestor_lvl_node k me : (1 <= k)%nat -> ancestor (lvl_node (N.of_nat k) me) me.
+Proof.
+  intro Hk. exists (N.of_nat (k - 1)), (me / 2 ^ N.of_nat k). unfold lvl_node.
+  replace (N.of_nat (k - 1) + 1) with (N.of_nat k) by lia. split; reflexivity.
+Qed.
+
+Lemma complete_of_unmerged t me pr : UnmergedAtAll t me -> Complete t me pr.
+Proof. intros U k um Hk G. right. apply (U _ _ G). apply ancestor_lvl_node. exact Hk. Qed.
+
+Definition evolves_nopath (g : gstate) (updates : list (N * N)) (t1 : tree) (added : list N)
+           (newleaf : N -> option N) (ks1 : keys) (m' : N * priv) : Prop :=
+  let me := fst m' in
+  (exists pr own,
+     In (me, pr) (g_members g) /\ 2 * me < tlen t1 /\ get t1 (2 * me) <> None /\ newleaf me = own /\
+     (match own with None => True | Some _ => In me (map fst updates) end) /\
+     provisional_priv t1 me pr own = Ok (snd m'))
+  \/
+  (exists lk, In me added /\ get t1 (2 * me) <> None /\ ks1 (2 * me) = Some lk /\ snd m' = [Some lk]).
+
+Inductive gstep_nopath (g g' : gstate) : Prop :=
+| GCommitNoPath removes updates adds added newleaf :
+    tlen (g_tree g) + 2 * N.of_nat (length adds) < 2 ^ 25 ->
+    batch_edit (g_tree g) removes updates adds = TOk (g_tree g', added) ->
+    g_keys g' = keys_after_proposals (g_keys g) (g_tree g') newleaf ->
+    Forall (evolves_nopath g updates (g_tree g') added newleaf (g_keys g')) (g_members g') ->
+    gstep_nopath g g'.
+
+Theorem ginv_step_nopath g g' : GInv g -> gstep_nopath g g' -> GInv g'.
+Proof.
+  intros [T M] [removes updates adds added newleaf Sz B Ek Ev].
+  destruct T as (W3 & W5 & Sh).
+  destruct (wf3_batch_edit _ _ _ _ _ _ W3 Sz B) as [W31 L1].
+  pose proof (wf5_batch_edit _ _ _ _ _ _ W5 Sh Sz B) as W51.
+  destruct (shape_batch_edit _ _ _ _ _ _ Sh B) as [Sh1 _].
+  assert (Sm1 : small (g_tree g')) by (unfold small; lia).
+  split; [split; [exact W31|split; [exact W51|exact Sh1]]|].
+  rewrite Forall_forall in *. intros [me pr'] Im. specialize (Ev _ Im). unfold evolves_nopath in Ev. cbn [fst snd] in Ev.
+  destruct Ev as [(pr & own & Iold & Lm & Nb & En & Up & Pv)|(lk & Ia & Nb & K & E)].
+  - destruct (M _ Iold) as (_ & P & C & (lk0 & K0)). cbn [fst snd] in *.
+    split; [apply leaf_of_shape; assumption|]. cbn [fst snd]. rewrite Ek.
+    split; [eapply privok_provisional; eassumption|]. destruct own as [key|].
+    + split; [eapply complete_own_update; eassumption|]. exists key. eapply provisional_own_leaf_key. exact Pv.
+    + split; [eapply complete_provisional; [exact C|eapply ParMono_batch_edit; exact B|exact Sm1|exact Lm|exact Pv]|].
+      exists lk0. eapply provisional_keeps_leaf_key; eassumption.
+  - cbn [fst snd] in *. subst pr'. split; [apply leaf_of_shape; assumption|]. cbn [fst snd]. split; [|split].
+    + intros k x H. destruct k as [|k]; cbn [nth_error] in H; [|destruct k; discriminate]. injection H as <-.
+      unfold lvl_node. cbn [N.of_nat]. rewrite N.pow_0_r, N.div_1_r, node_0. exact K.
+    + apply complete_of_unmerged. eapply added_member_unmerged; eassumption.
+    + exists lk. reflexivity.
+Qed.
+
+(* histories of both kinds of commit *)
+Inductive reachable2 (g0 : gstate) : gstate -> Prop :=
+| reach2_refl : reachable2 g0 g0
+| reach2_path g g' : reachable2 g0 g -> gstep g g' -> reachable2 g0 g'
+| reach2_nopath g g' : reachable2 g0 g -> gstep_nopath g g' -> reachable2 g0 g'.
+
+Theorem ginv_reachable2 g0 g : GInv g0 -> reachable2 g0 g -> GInv g.
+Proof.
+  intros I R. induction R as [|g g' R IH St|g g' R IH St]; [exact I| |].
+  - eapply ginv_step; [exact IH|exact St].
+  - eapply ginv_step_nopath; [exact IH|exact St].
+Qed.
